@@ -103,14 +103,14 @@ def is_append(new, old_len, old_at, x):
     return z3.And(
         l_len(new) == old_len + 1,
         l_at(new, old_len) == x,
-        z3.ForAll([j], z3.Implies(z3.And(0 <= j, j < old_len), l_at(new, j) == old_at(j)), patterns=[l_at(new, j), old_at(j)]),
+        forall([j], z3.Implies(z3.And(0 <= j, j < old_len), l_at(new, j) == old_at(j)), patterns=[l_at(new, j), old_at(j)]),
     )
 
 
 def same_elems(new, old):
     j = z3.Int(fresh_name("j"))
     return z3.And(l_len(new) == l_len(old),
-                  z3.ForAll([j], z3.Implies(z3.And(0 <= j, j < l_len(old)), l_at(new, j) == l_at(old, j)), patterns=[l_at(new, j)]))
+                  forall([j], z3.Implies(z3.And(0 <= j, j < l_len(old)), l_at(new, j) == l_at(old, j)), patterns=[l_at(new, j)]))
 
 
 # -------------------------------------------------- representation invariant
@@ -125,14 +125,14 @@ def repr_meas(M, n, P, keep=None, only=None):
     keep = keep or (lambda e: z3.BoolVal(True))
     only = only or (lambda mm: z3.BoolVal(True))
     return [
-        ("meas_nonempty", z3.ForAll([m], z3.Implies(z3.Select(dom, m), z3.And(only(m), l_len(lst(m)) > 0)), patterns=[z3.Select(dom, m)])),
-        ("meas_sound", z3.ForAll([m, j], z3.Implies(z3.And(z3.Select(dom, m), 0 <= j, j < l_len(lst(m))),
+        ("meas_nonempty", forall([m], z3.Implies(z3.Select(dom, m), z3.And(only(m), l_len(lst(m)) > 0)), patterns=[z3.Select(dom, m)])),
+        ("meas_sound", forall([m, j], z3.Implies(z3.And(z3.Select(dom, m), 0 <= j, j < l_len(lst(m))),
                                                      z3.And(0 <= l_at(lst(m), j), l_at(lst(m), j) < n, keep(l_at(lst(m), j)), meas(P(l_at(lst(m), j))) == m)),
                                  patterns=[l_at(lst(m), j)])),
-        ("meas_ascending", z3.ForAll([m, j, k], z3.Implies(z3.And(z3.Select(dom, m), 0 <= j, j < k, k < l_len(lst(m))),
+        ("meas_ascending", forall([m, j, k], z3.Implies(z3.And(z3.Select(dom, m), 0 <= j, j < k, k < l_len(lst(m))),
                                                            l_at(lst(m), j) < l_at(lst(m), k)),
                                      patterns=[z3.MultiPattern(l_at(lst(m), j), l_at(lst(m), k))])),
-        ("meas_complete", z3.ForAll([i], z3.Implies(z3.And(0 <= i, i < n, S.Tr(i), keep(i), only(meas(P(i)))),
+        ("meas_complete", forall([i], z3.Implies(z3.And(0 <= i, i < n, S.Tr(i), keep(i), only(meas(P(i)))),
                                                     z3.And(z3.Select(dom, meas(P(i))),
                                                            z3.Exists([j], z3.And(0 <= j, j < l_len(lst(meas(P(i)))), l_at(lst(meas(P(i))), j) == i)))),
                                     patterns=[P(i)])),
@@ -151,16 +151,16 @@ def repr_tags(T, n, P, keep=None, only=None):
     keep = keep or (lambda e: z3.BoolVal(True))
     only = only or (lambda kk, vv: z3.BoolVal(True))
     return [
-        ("tags_no_empty_inner", z3.ForAll([k], z3.Implies(z3.Select(dom, k), z3.Exists([v], idom(k, v))), patterns=[z3.Select(dom, k)])),
-        ("tags_nonempty", z3.ForAll([k, v], z3.Implies(present(k, v), z3.And(only(k, v), l_len(lst(k, v)) > 0)), patterns=[idom(k, v)])),
-        ("tags_sound", z3.ForAll([k, v, j], z3.Implies(z3.And(present(k, v), 0 <= j, j < l_len(lst(k, v))),
+        ("tags_no_empty_inner", forall([k], z3.Implies(z3.Select(dom, k), z3.Exists([v], idom(k, v))), patterns=[z3.Select(dom, k)])),
+        ("tags_nonempty", forall([k, v], z3.Implies(present(k, v), z3.And(only(k, v), l_len(lst(k, v)) > 0)), patterns=[idom(k, v)])),
+        ("tags_sound", forall([k, v, j], z3.Implies(z3.And(present(k, v), 0 <= j, j < l_len(lst(k, v))),
                                                        z3.And(0 <= l_at(lst(k, v), j), l_at(lst(k, v), j) < n, keep(l_at(lst(k, v), j)),
                                                               has_tag(P(l_at(lst(k, v), j)), k), tag(P(l_at(lst(k, v), j)), k) == v)),
                                  patterns=[l_at(lst(k, v), j)])),
-        ("tags_ascending", z3.ForAll([k, v, j, j2], z3.Implies(z3.And(present(k, v), 0 <= j, j < j2, j2 < l_len(lst(k, v))),
+        ("tags_ascending", forall([k, v, j, j2], z3.Implies(z3.And(present(k, v), 0 <= j, j < j2, j2 < l_len(lst(k, v))),
                                                                l_at(lst(k, v), j) < l_at(lst(k, v), j2)),
                                      patterns=[z3.MultiPattern(l_at(lst(k, v), j), l_at(lst(k, v), j2))])),
-        ("tags_complete", z3.ForAll([i, k], z3.Implies(z3.And(0 <= i, i < n, S.Tr(i), keep(i), has_tag(P(i), k), only(k, tag(P(i), k))),
+        ("tags_complete", forall([i, k], z3.Implies(z3.And(0 <= i, i < n, S.Tr(i), keep(i), has_tag(P(i), k), only(k, tag(P(i), k))),
                                                        z3.And(present(k, tag(P(i), k)),
                                                               z3.Exists([j], z3.And(0 <= j, j < l_len(lst(k, tag(P(i), k))), l_at(lst(k, tag(P(i), k)), j) == i)))),
                                     patterns=[has_tag(P(i), k)])),
@@ -177,13 +177,13 @@ def repr_fields(F, n, P, keep=None, only=None):
     keep = keep or (lambda e: z3.BoolVal(True))
     only = only or (lambda kk: z3.BoolVal(True))
     return [
-        ("fields_nonempty", z3.ForAll([k], z3.Implies(z3.Select(dom, k), z3.And(only(k), l_len(lst(k)) > 0)), patterns=[z3.Select(dom, k)])),
-        ("fields_sound", z3.ForAll([k, j], z3.Implies(z3.And(z3.Select(dom, k), 0 <= j, j < l_len(lst(k))),
+        ("fields_nonempty", forall([k], z3.Implies(z3.Select(dom, k), z3.And(only(k), l_len(lst(k)) > 0)), patterns=[z3.Select(dom, k)])),
+        ("fields_sound", forall([k, j], z3.Implies(z3.And(z3.Select(dom, k), 0 <= j, j < l_len(lst(k))),
                                                       z3.And(0 <= pos(k, j), pos(k, j) < n, keep(pos(k, j)), has_fld(P(pos(k, j)), k), fv(k, j) == fld(P(pos(k, j)), k))),
                                    patterns=[l_at(lst(k), j)])),
-        ("fields_ascending", z3.ForAll([k, j, j2], z3.Implies(z3.And(z3.Select(dom, k), 0 <= j, j < j2, j2 < l_len(lst(k))), pos(k, j) < pos(k, j2)),
+        ("fields_ascending", forall([k, j, j2], z3.Implies(z3.And(z3.Select(dom, k), 0 <= j, j < j2, j2 < l_len(lst(k))), pos(k, j) < pos(k, j2)),
                                        patterns=[z3.MultiPattern(l_at(lst(k), j), l_at(lst(k), j2))])),
-        ("fields_complete", z3.ForAll([i, k], z3.Implies(z3.And(0 <= i, i < n, S.Tr(i), keep(i), has_fld(P(i), k), only(k)),
+        ("fields_complete", forall([i, k], z3.Implies(z3.And(0 <= i, i < n, S.Tr(i), keep(i), has_fld(P(i), k), only(k)),
                                                          z3.And(z3.Select(dom, k), z3.Exists([j], z3.And(0 <= j, j < l_len(lst(k)), pos(k, j) == i)))),
                                       patterns=[has_fld(P(i), k)])),
     ]
@@ -194,14 +194,14 @@ def repr_time(TS, POS, n, P):
     t, p = TS.t, POS.t
     return [
         ("time_lengths", z3.And(l_len(t) == n, l_len(p) == n)),
-        ("time_sorted", z3.ForAll([j, j2], z3.Implies(z3.And(0 <= j, j <= j2, j2 < n), l_at(t, j) <= l_at(t, j2)),
+        ("time_sorted", forall([j, j2], z3.Implies(z3.And(0 <= j, j <= j2, j2 < n), l_at(t, j) <= l_at(t, j2)),
                                   patterns=[z3.MultiPattern(l_at(t, j), l_at(t, j2))])),
-        ("time_pos_range", z3.ForAll([j], z3.Implies(z3.And(0 <= j, j < n), z3.And(0 <= l_at(p, j), l_at(p, j) < n)), patterns=[l_at(p, j)])),
-        ("time_pos_injective", z3.ForAll([j, j2], z3.Implies(z3.And(0 <= j, j < j2, j2 < n), l_at(p, j) != l_at(p, j2)),
+        ("time_pos_range", forall([j], z3.Implies(z3.And(0 <= j, j < n), z3.And(0 <= l_at(p, j), l_at(p, j) < n)), patterns=[l_at(p, j)])),
+        ("time_pos_injective", forall([j, j2], z3.Implies(z3.And(0 <= j, j < j2, j2 < n), l_at(p, j) != l_at(p, j2)),
                                          patterns=[z3.MultiPattern(l_at(p, j), l_at(p, j2))])),
-        ("time_pos_onto", z3.ForAll([i], z3.Implies(z3.And(0 <= i, i < n, S.Tr(i)), z3.Exists([j], z3.And(0 <= j, j < n, l_at(p, j) == i))),
+        ("time_pos_onto", forall([i], z3.Implies(z3.And(0 <= i, i < n, S.Tr(i)), z3.Exists([j], z3.And(0 <= j, j < n, l_at(p, j) == i))),
                                     patterns=[S.Tr(i), P(i)])),
-        ("time_values", z3.ForAll([j], z3.Implies(z3.And(0 <= j, j < n), l_at(t, j) == ts(P(l_at(p, j)))), patterns=[l_at(t, j)])),
+        ("time_values", forall([j], z3.Implies(z3.And(0 <= j, j < n), l_at(t, j) == ts(P(l_at(p, j)))), patterns=[l_at(t, j)])),
     ]
 
 
@@ -212,14 +212,14 @@ def sparse_time(TS, POS, n, P, keep):
     m = l_len(p)
     return [
         ("time_lengths", l_len(t) == m),
-        ("time_sorted", z3.ForAll([j, j2], z3.Implies(z3.And(0 <= j, j <= j2, j2 < m), l_at(t, j) <= l_at(t, j2)),
+        ("time_sorted", forall([j, j2], z3.Implies(z3.And(0 <= j, j <= j2, j2 < m), l_at(t, j) <= l_at(t, j2)),
                                   patterns=[z3.MultiPattern(l_at(t, j), l_at(t, j2))])),
-        ("time_pos_range", z3.ForAll([j], z3.Implies(z3.And(0 <= j, j < m), z3.And(0 <= l_at(p, j), l_at(p, j) < n, keep(l_at(p, j)))), patterns=[l_at(p, j)])),
-        ("time_pos_injective", z3.ForAll([j, j2], z3.Implies(z3.And(0 <= j, j < j2, j2 < m), l_at(p, j) != l_at(p, j2)),
+        ("time_pos_range", forall([j], z3.Implies(z3.And(0 <= j, j < m), z3.And(0 <= l_at(p, j), l_at(p, j) < n, keep(l_at(p, j)))), patterns=[l_at(p, j)])),
+        ("time_pos_injective", forall([j, j2], z3.Implies(z3.And(0 <= j, j < j2, j2 < m), l_at(p, j) != l_at(p, j2)),
                                          patterns=[z3.MultiPattern(l_at(p, j), l_at(p, j2))])),
-        ("time_pos_onto", z3.ForAll([i], z3.Implies(z3.And(0 <= i, i < n, keep(i), S.Tr(i)), z3.Exists([j], z3.And(0 <= j, j < m, l_at(p, j) == i))),
+        ("time_pos_onto", forall([i], z3.Implies(z3.And(0 <= i, i < n, keep(i), S.Tr(i)), z3.Exists([j], z3.And(0 <= j, j < m, l_at(p, j) == i))),
                                     patterns=[S.Tr(i), P(i)])),
-        ("time_values", z3.ForAll([j], z3.Implies(z3.And(0 <= j, j < m), l_at(t, j) == ts(P(l_at(p, j)))), patterns=[l_at(t, j)])),
+        ("time_values", forall([j], z3.Implies(z3.And(0 <= j, j < m), l_at(t, j) == ts(P(l_at(p, j)))), patterns=[l_at(t, j)])),
     ]
 
 
@@ -257,13 +257,124 @@ def repr_self(ix, parts=("num", "meas", "tags", "fields", "time")):
 def pigeonhole(a, b, g):
     """ASSUMED mathematical lemma instance: an injection [0,a) -> [0,b) implies a <= b."""
     j, k = z3.Int(fresh_name("j")), z3.Int(fresh_name("k"))
-    inj = z3.ForAll([j, k], z3.Implies(z3.And(0 <= j, j < k, k < a), g(j) != g(k)))
-    rng = z3.ForAll([j], z3.Implies(z3.And(0 <= j, j < a), z3.And(0 <= g(j), g(j) < b)))
+    inj = forall([j, k], z3.Implies(z3.And(0 <= j, j < k, k < a), g(j) != g(k)))
+    rng = forall([j], z3.Implies(z3.And(0 <= j, j < a), z3.And(0 <= g(j), g(j) < b)))
     return z3.Implies(z3.And(inj, rng), a <= b)
 
 
 def pigeonhole_onto(a, b, g):
     """ASSUMED mathematical lemma instance: a surjection [0,a) ->> [0,b) implies b <= a."""
     j, p = z3.Int(fresh_name("j")), z3.Int(fresh_name("p"))
-    onto = z3.ForAll([p], z3.Implies(z3.And(0 <= p, p < b, S.Tr(p)), z3.Exists([j], z3.And(0 <= j, j < a, g(j) == p))))
+    onto = forall([p], z3.Implies(z3.And(0 <= p, p < b, S.Tr(p)), z3.Exists([j], z3.And(0 <= j, j < a, g(j) == p))))
     return z3.Implies(z3.And(onto, b >= 0, a >= 0), b <= a)
+
+
+# ---------------------------------------------------------------- queries (DESIGN 3.2)
+
+Q = TU("Q")  # query objects (SimpleQuery | CompoundQuery | anything else)
+UV = TU("UV")  # values handed to a query's test / path functions
+Op = TU("Op")  # function objects of the operator module, or user callables
+_q, _uv, _op = sort_of(Q), sort_of(UV), sort_of(Op)
+
+uv_str = z3.Function("uv_str", _str, _uv)
+uv_tagv = z3.Function("uv_tagv", sort_of(TagV), _uv)
+uv_fldv = z3.Function("uv_fldv", sort_of(FldV), _uv)
+uv_dt = z3.Function("uv_dt", _dt, _uv)
+
+q_kind = z3.Function("q_kind", _q, z3.IntSort())  # 0 SimpleQuery, 1 CompoundQuery, other: neither
+q_op = z3.Function("q_op", _q, _op)  # .operator / ._operator
+q_q1 = z3.Function("q_q1", _q, _q)
+q_q2 = z3.Function("q_q2", _q, _q)
+q_has2 = z3.Function("q_has2", _q, z3.BoolSort())  # query2 is not None
+q_attr = z3.Function("q_attr", _q, _str)  # ._point_attr
+q_rhs_dt = z3.Function("q_rhs_dt", _q, _dt)  # ._rhs of a TimeQuery comparison
+q_hash_truthy = z3.Function("q_hash_truthy", _q, z3.BoolSort())  # bool(q._hash)
+q_key = z3.Function("q_key", _q, _str)  # first (string) element of the path
+q_single = z3.Function("q_single", _q, z3.BoolSort())  # the path is exactly (key,)
+q_test = z3.Function("q_test", _q, _uv, z3.BoolSort())  # q._test(value)
+q_path0 = z3.Function("q_path0", _q, _uv, _uv)  # q._path_resolver(scalar)
+q_path0_raises = z3.Function("q_path0_raises", _q, _uv, z3.BoolSort())
+q_path1 = z3.Function("q_path1", _q, _str, _uv, _uv)  # q._path_resolver({key: value})
+q_path1_raises = z3.Function("q_path1_raises", _q, _str, _uv, z3.BoolSort())
+sem = z3.Function("sem", _q, _pt, z3.BoolSort())  # the meaning: q(point), DESIGN 3.2
+exactq = z3.Function("exactq", _q, z3.BoolSort())  # the index answers q exactly
+wfq = z3.Function("wfq", _q, z3.BoolSort())  # built by the public constructors
+
+OPS = {n: z3.Const("operator." + n, _op) for n in ("and_", "or_", "not_", "eq", "ne", "lt", "le", "gt", "ge")}
+A_TIME, A_MEAS, A_TAGS, A_FIELDS = [str_const(s) for s in ("_time", "_measurement", "_tags", "_fields")]
+
+
+def query_axioms():
+    """Structure of well-formed queries and the meaning function (DESIGN 3.2).
+
+    Compound cases are the definition of the DSL's boolean operators; the simple
+    cases for index-eligible queries (truthy hash: all-string path, no map, not
+    noop) summarise SimpleQuery.__call__ + path_resolver, to be discharged by the
+    C09 cone on queries.py.
+    """
+    q = z3.Const("ax_q", _q)
+    p = z3.Const("ax_p", _pt)
+    k = z3.Const("ax_k", _str)
+    v = z3.Const("ax_v", _uv)
+    simple, comp = q_kind(q) == 0, q_kind(q) == 1
+    A = []
+    A.append(z3.Distinct(*OPS.values()))
+    A.append(z3.Distinct(A_TIME, A_MEAS, A_TAGS, A_FIELDS, EMPTY_STR))
+    # well-formedness unfolds
+    A.append(forall([q], z3.Implies(wfq(q), z3.Or(simple, comp)), patterns=[wfq(q)]))
+    A.append(forall([q], z3.Implies(z3.And(wfq(q), comp),
+                                       z3.And(z3.Or(q_op(q) == OPS["and_"], q_op(q) == OPS["or_"], q_op(q) == OPS["not_"]),
+                                              wfq(q_q1(q)),
+                                              (q_op(q) == OPS["not_"]) == z3.Not(q_has2(q)),
+                                              z3.Implies(q_has2(q), wfq(q_q2(q))))), patterns=[wfq(q)]))
+    A.append(forall([q], z3.Implies(z3.And(wfq(q), simple),
+                                       z3.Or(q_attr(q) == A_TIME, q_attr(q) == A_MEAS, q_attr(q) == A_TAGS, q_attr(q) == A_FIELDS)), patterns=[wfq(q)]))
+    # meaning of compound queries
+    A.append(forall([q, p], z3.Implies(z3.And(comp, q_op(q) == OPS["and_"]), sem(q, p) == z3.And(sem(q_q1(q), p), sem(q_q2(q), p))), patterns=[sem(q, p)]))
+    A.append(forall([q, p], z3.Implies(z3.And(comp, q_op(q) == OPS["or_"]), sem(q, p) == z3.Or(sem(q_q1(q), p), sem(q_q2(q), p))), patterns=[sem(q, p)]))
+    A.append(forall([q, p], z3.Implies(z3.And(comp, q_op(q) == OPS["not_"]), sem(q, p) == z3.Not(sem(q_q1(q), p))), patterns=[sem(q, p)]))
+    # exactness predicate (mirrors database._index_is_exact_for)
+    A.append(forall([q], z3.Implies(comp, exactq(q) == z3.And(
+        z3.Not(z3.And(q_op(q) == OPS["not_"], q_kind(q_q1(q)) == 0, q_attr(q_q1(q)) == A_FIELDS)),
+        exactq(q_q1(q)), z3.Implies(q_has2(q), exactq(q_q2(q))))), patterns=[exactq(q)]))
+    A.append(forall([q], z3.Implies(simple, exactq(q) == q_hash_truthy(q)), patterns=[exactq(q)]))
+    # index-eligible simple queries: meaning through the index's own calls
+    elig = z3.And(wfq(q), simple, q_hash_truthy(q))
+    A.append(forall([q, p], z3.Implies(z3.And(elig, q_attr(q) == A_MEAS), sem(q, p) == q_test(q, uv_str(meas(p)))), patterns=[sem(q, p)]))
+    A.append(forall([q, v], z3.Implies(z3.And(elig, z3.Or(q_attr(q) == A_MEAS, q_attr(q) == A_TIME)), z3.And(z3.Not(q_path0_raises(q, v)), q_path0(q, v) == v)),
+                       patterns=[q_path0(q, v)], ))
+    A.append(forall([q, v], z3.Implies(z3.And(elig, z3.Or(q_attr(q) == A_MEAS, q_attr(q) == A_TIME)), z3.Not(q_path0_raises(q, v))),
+                       patterns=[q_path0_raises(q, v)]))
+    A.append(forall([q, p], z3.Implies(z3.And(elig, q_attr(q) == A_TIME), sem(q, p) == q_test(q, uv_dt(time_of(p)))), patterns=[sem(q, p)]))
+    A.append(forall([q, p], z3.Implies(z3.And(elig, q_attr(q) == A_TAGS),
+                                          sem(q, p) == z3.And(has_tag(p, q_key(q)), q_single(q), q_test(q, uv_tagv(tag(p, q_key(q)))))), patterns=[sem(q, p)]))
+    A.append(forall([q, p], z3.Implies(z3.And(elig, q_attr(q) == A_FIELDS),
+                                          sem(q, p) == z3.And(has_fld(p, q_key(q)), q_single(q), q_test(q, uv_fldv(fld(p, q_key(q)))))), patterns=[sem(q, p)]))
+    A.append(forall([q, k, v], z3.Implies(z3.And(elig, z3.Or(q_attr(q) == A_TAGS, q_attr(q) == A_FIELDS)),
+                                             q_path1_raises(q, k, v) == z3.Or(k != q_key(q), z3.Not(q_single(q)))), patterns=[q_path1_raises(q, k, v)]))
+    A.append(forall([q, k, v], z3.Implies(z3.And(elig, z3.Or(q_attr(q) == A_TAGS, q_attr(q) == A_FIELDS), z3.Not(q_path1_raises(q, k, v))),
+                                             q_path1(q, k, v) == v), patterns=[q_path1(q, k, v)]))
+    return A
+
+
+S.THEORIES["queries"] = query_axioms()
+
+
+def time_axioms():
+    """ASSUMED (DESIGN 4.3, validated under C08): for index-eligible TimeQuery comparisons the
+    test on a stored (aware, UTC) datetime is the comparison of POSIX timestamps, and
+    fromtimestamp(ts).astimezone(utc) gives back a stored datetime as far as tests can see."""
+    q = z3.Const("ax_q", _q)
+    d = z3.Const("ax_d", _dt)
+    elig = z3.And(wfq(q), q_kind(q) == 0, q_hash_truthy(q), q_attr(q) == A_TIME)
+    x, y = dt_ts(d), dt_ts(q_rhs_dt(q))
+    A = []
+    for name, rel in (("eq", x == y), ("ne", x != y), ("lt", x < y), ("le", x <= y), ("gt", x > y), ("ge", x >= y)):
+        A.append(forall([q, d], z3.Implies(z3.And(elig, q_op(q) == OPS[name]), q_test(q, uv_dt(d)) == rel), patterns=[q_test(q, uv_dt(d))]))
+    A.append(forall([d], uv_dt(dt_utc(dt_from_ts(dt_ts(d)))) == uv_dt(d), patterns=[dt_ts(d)]))
+    return A
+
+
+dt_from_ts = z3.Function("dt_from_ts", z3.RealSort(), _dt)  # datetime.fromtimestamp
+dt_utc = z3.Function("dt_utc", _dt, _dt)  # .astimezone(timezone.utc)
+S.THEORIES["time"] = time_axioms()
